@@ -1,4 +1,5 @@
 """C01 - virtual time is monotone and every timed wait resumes at exactly its date"""
+import gc
 import random
 
 from .. import bootstrap  # noqa: F401
@@ -159,7 +160,57 @@ def build(case):
     return TimingGen(rng).program()
 
 
+def aborted_then_resumed(case):
+    """date conditions whose first simulation is aborted by a failure before the dates (every
+    wait for them unwound by it) are waited for in the next simulation - which is made right
+    after the first one is let go of, several times in a row: whatever a condition remembers of
+    a loop that is gone must not be mistaken for the new one"""
+    rng = random.Random('%s/%s/c01-aborted' % (case['seed'], case['index']))
+    start = rng.choice([0, 0, 3, 0.5])
+    shared = [{'k': rng.choice(['ge', 'ge', 'eq']), 't': start + rng.choice([4, 6, 10]),
+               'share': 'n%d' % number} for number in range(rng.randint(1, 2))]
+    body = [{'op': 'wait', 'n': {'k': 'delay', 'd': rng.choice([1, 2, 3])}, 'id': 'a1'},
+            {'op': 'raise', 'kind': 'err', 'tag': 'abort', 'id': 'a2'}]
+    for depth, spec in enumerate(shared):
+        body = [{'op': 'scope', 'id': 'ab%d' % depth, 'n': dict(spec), 'children': [],
+                 'catch': False, 'body': body}]
+    first = {'objects': {}, 'roots': [{'name': 'r0', 'steps': body}], 'start': start,
+             'till': None}
+    roots = []
+    for number in range(rng.randint(1, 3)):
+        roots.append({'name': 'w%d' % number, 'steps': [
+            {'op': 'wait', 'n': dict(rng.choice(shared)), 'id': 'w%d' % number},
+            {'op': 'wait', 'n': {'k': 'delay', 'd': 1}, 'id': 'x%d' % number}]})
+    second = {'objects': {}, 'roots': roots, 'start': rng.choice([start, start, 0]),
+              'till': None}
+    result = None
+    for round_ in range(4):
+        sess = Session()
+        env, outcome = execute(first, sess, None)
+        used = dict(env.shared)
+        holder = [env, sess, outcome]
+        del env, sess, outcome
+        again = run_once(dict(case, round=round_), second, used, holder)
+        again.pop('shared')
+        for vio in again['violations']:
+            vio['msg'] = ('simulation after one that was aborted by a failure before the dates '
+                          'of its conditions: ' + vio['msg'])
+            vio['case'] = dict(case)
+        if result is None:
+            result = again
+        else:
+            result['evals'] += 1
+            result['stats']['waits_checked'] += again['stats']['waits_checked']
+            result['violations'] += again['violations']
+        if result['violations']:
+            break
+    result['stats']['runs_after_aborted_simulation'] = round_ + 1
+    return result
+
+
 def run_case(case):
+    if case['index'] % 10 == 3 and not case.get('program'):
+        return aborted_then_resumed(case)
     program = case.get('program') or build(case)
     result = run_once(case, program, None)
     shared = result.pop('shared')
@@ -174,14 +225,45 @@ def run_case(case):
         for vio in again['violations']:
             vio['msg'] = 'second run re-using the date conditions of the first: ' + vio['msg']
         result['violations'] += again['violations']
+    if shared and not result['violations'] and case['index'] % 2:
+        # ... and once more with conditions whose first simulation was cut short by a failing
+        # activity while their dates were still ahead (its loop is gone, the
+        # queued triggers with it; the next loop may well live at the same address)
+        # (only a failure ends a simulation with dates still queued; `till` lets the loop run dry)
+        cut = dict(program, roots=program['roots'] + [{'name': 'saboteur', 'steps': [
+            {'op': 'wait', 'n': {'k': 'delay', 'd': [0.25, 0.5, 1, 2][case['index'] // 2 % 4]},
+             'id': 'sab1'},
+            {'op': 'raise', 'kind': 'err', 'tag': 'sabotage', 'id': 'sab2'}]}])
+        sess = Session()
+        env, outcome = execute(cut, sess, None)
+        used = dict(env.shared)
+        # that simulation (and its loop) is let go of at the last moment before the next one
+        # is made, so that the new loop has a fair chance to be allocated in its place
+        holder = [env, sess]
+        del env, sess
+        if used:
+            again = run_once(case, program, used, holder)
+            again.pop('shared')
+            result['evals'] += 1
+            result['stats']['reruns_after_cut_short_simulation'] = 1
+            result['stats']['waits_checked'] += again['stats']['waits_checked']
+            for vio in again['violations']:
+                vio['msg'] = ('run re-using the date conditions of a simulation that was cut '
+                              'short: ' + vio['msg'])
+            result['violations'] += again['violations']
     return result
 
 
-def run_once(case, program, shared):
+def run_once(case, program, shared, let_go=None):
     model = ClockModel(program)
     sess = Session()
-    env, outcome = execute(program, sess,
-                           (lambda env: env.shared.update(shared)) if shared else None)
+
+    def prepare(env):
+        env.shared.update(shared)
+        if let_go:
+            let_go.clear()
+            gc.collect()
+    env, outcome = execute(program, sess, prepare if shared else None)
     violations = [dict(v) for v in sess.violations
                   if not v['mechanism'].startswith(('c04:', 'c05:', 'c06:'))]
     checked = 0
